@@ -1,0 +1,19 @@
+//go:build !verif
+
+package ocache
+
+// Verification hooks (see ocache_verif.go). Without the `verif` build tag they
+// are empty functions that the compiler inlines away.
+
+func verifGate(point string, id string) {}
+
+func verifGateE(point string, e *entry) {}
+
+func verifGateS(point string, e *entry) {}
+
+func verifPick(cond bool, yes, no string) string {
+	if cond {
+		return yes
+	}
+	return no
+}
